@@ -164,7 +164,7 @@ def for_loop(ip, st, key=None):
             return c.from_val(c.heap.get("lelem")[kind_[1]][k], kind_[2])
         if kind_[0] == "dict":
             d = kind_[1]
-            kv = c.from_val(c.heap.get("dkey")[d][k], "val")
+            kv = c.from_val(c.heap.get("dkey")[d][k], "str")   # T-schema: dict keys are strings
             if kind_[2] == "keys":
                 return kv
             vv = c.from_val(c.heap.get("dmap")[d][c.to_val(kv)], kind_[3])
@@ -243,8 +243,11 @@ def cut_loop(ip, key, assigned, guard, bind, body, extra=None):
     learned = c.task.learned.setdefault(key, {"arrays": set(), "fields": set()})
     name = f"{key[0]}/loop{key[1]}"
 
+    ghost = {}
+
     def view(k):
         d = dict(fr.locals)
+        d.update(ghost)
         d["_k"] = k if isinstance(k, int) else Sym(k, "int")
         if extra:
             d.update({kk: vv for kk, vv in extra.items() if not isinstance(vv, tuple)})
@@ -264,6 +267,11 @@ def cut_loop(ip, key, assigned, guard, bind, body, extra=None):
         out.extend(auto)
         return out
 
+    if lc is not None and lc.ghost:
+        v0 = view(0)
+        for gname, gf in lc.ghost.items():
+            gv = gf(c.sv(), v0)
+            ghost[gname] = Sym(gv, "ghost") if z3.is_expr(gv) else gv
     # 1. invariant holds on entry
     for nm, f in inv_clauses(0):
         c.prove(f"{name}/init/{nm}", f, kind="loop-init")
@@ -292,6 +300,10 @@ def cut_loop(ip, key, assigned, guard, bind, body, extra=None):
     c.assume(k >= 0)
     for nm, f in inv_clauses(k):
         c.assume(f)
+    if lc is not None and lc.axioms is not None:
+        from .calls import _clauses
+        for nm, f in _clauses(lc.axioms(SV(c.heap0), c.sv(), view(k)), "axiom"):
+            c.assume(f)
     dec0 = None
     # 3. one arbitrary iteration, or exit
     c.loop_stack.append(lp)
